@@ -288,3 +288,43 @@ Print Assumptions C09J_close_while_up_removes.
 Print Assumptions C09J_close_idempotent.
 Print Assumptions C09J_one_publisher_per_stream_refuted.
 Print Assumptions C09J_second_publisher_loses_key.
+
+(* ---- C09J, continued: the reachable states (proofs/Janus_inv.v) ------------------------------------------------ *)
+From Verif Require Import proofs.Janus_inv.
+
+(* (1) JInv -- one object per id, every id below mcu.clientId has its object, per object: registered exactly when not
+   closed, no handle exactly when closed, a publisher no room number exactly when closed, while open exactly one handle
+   (one room, a publisher) at the gateway when the field is live and none otherwise, never a room for a subscriber;
+   mcu.clients without duplicates; a key of mcu.publishers names an open publisher of that stream; the gateway holds
+   handles and rooms only for ids handed out (and the MCU's own handle, once, while it knows the session; nothing when it
+   does not) -- holds initially, is kept by every operation, so holds after every history. *)
+Theorem C09J_invariant_init : JInv init.
+Proof. exact JInv_init. Qed.
+Theorem C09J_invariant_step : forall st o, JInv st -> JInv (step_st st o).
+Proof. exact step_inv. Qed.
+Theorem C09J_invariant_reachable : forall ops, JInv (run ops).
+Proof. exact reachable_inv. Qed.
+(* read off it, for every history: *)
+Theorem C09J_registered_iff_not_closed : forall ops x, In x (m_objs (run ops)) ->
+  (memN (c_id x) (m_clients (run ops)) = true <-> c_closed x = false).
+Proof. exact registered_not_closed. Qed.
+Theorem C09J_registered_has_object : forall ops c, In c (m_clients (run ops)) ->
+  exists x, get_obj (run ops) c = Some x /\ c_closed x = false /\ c_handle x <> HNone /\ (c_kind x = Pub -> c_room x <> HNone).
+Proof. exact registered_has_object. Qed.
+Theorem C09J_closed_has_nothing : forall ops x, In x (m_objs (run ops)) -> c_closed x = true ->
+  memN (c_id x) (m_clients (run ops)) = false /\ c_handle x = HNone /\ (c_kind x = Pub -> c_room x = HNone) /\
+  (forall k, ~ In (k, c_id x) (m_pubs (run ops))).
+Proof. exact closed_has_nothing. Qed.
+Theorem C09J_ids_below_counter : forall ops x, In x (m_objs (run ops)) -> 0 < c_id x < m_next (run ops).
+Proof. exact ids_below_counter. Qed.
+Theorem C09J_publishers_name_registered : forall ops k c, In (k, c) (m_pubs (run ops)) ->
+  exists x, get_obj (run ops) c = Some x /\ c_kind x = Pub /\ ckey x = k /\ c_closed x = false /\
+            memN c (m_clients (run ops)) = true.
+Proof. exact pubs_name_registered. Qed.
+
+Print Assumptions C09J_invariant_reachable.
+Print Assumptions C09J_registered_iff_not_closed.
+Print Assumptions C09J_registered_has_object.
+Print Assumptions C09J_closed_has_nothing.
+Print Assumptions C09J_ids_below_counter.
+Print Assumptions C09J_publishers_name_registered.
